@@ -8,6 +8,7 @@ boundary (each event has at most one durable effect), and over both shapes `cfg`
 dictionary `PrepareFlush`.
 -/
 import LinVerif.Lemmas.C07Resolve
+import LinVerif.Lemmas.C07Replay
 import LinVerif.Generated.C07
 
 namespace LinVerif.Props.C07
@@ -52,6 +53,32 @@ theorem no_replay_below (cfg : Cfg) (evs : List Ev) (fl : InFlight)
   obtain ⟨hr, _, hq, _, _⟩ := hi.infl fl h
   have := hi.stored_seq (by rw [hr]; decide)
   omega
+
+/-- File-level form of "never applied again": a durable data file only ever contains rows of entries
+ABOVE the sequence that the manifest had stored before that file was committed, and the stored
+sequence is the one of the newest record that carries one. -/
+theorem no_replay_below_files (cfg : Cfg) (evs : List Ev) :
+    FilesAbove (run cfg St.init evs).files ∧
+    (run cfg St.init evs).stored = latestStored (run cfg St.init evs).files :=
+  have h := inv2_run cfg evs inv_init inv2_init
+  ⟨h.files_above, h.stored_eq⟩
+
+/-- "... or still in the log and replayed": from ANY reachable idle running state (in particular
+right after `recover` + `rewind`), running the replica loop to the end of the log makes every
+appended entry present in the node's storage (a data file or a memory database), with its own payload. -/
+theorem replay_complete (cfg : Cfg) (evs : List Ev) (n : Nat)
+    (hr : (run cfg St.init evs).phase = .running) (hn : (run cfg St.init evs).inflight = none)
+    (hd : (run cfg St.init evs).appended - (run cfg St.init evs).consumed ≤ n)
+    (s : Int) (h0 : 0 ≤ s) (hs : s ≤ (run cfg St.init evs).appended) :
+    ∃ r, Stored (run cfg (run cfg St.init evs) (rounds n)) r ∧ r.seq = s ∧
+      (run cfg St.init evs).log[s.toNat]? = some (r.metric, r.tagv) := by
+  obtain ⟨hi, hp, hin, hl, hc⟩ := rounds_catch_up cfg n (inv_run cfg evs inv_init) hr hn hd
+  have happ : (run cfg (run cfg St.init evs) (rounds n)).appended = (run cfg St.init evs).appended := by
+    simp [St.appended, hl]
+  have hidle := hi.idle hp hin
+  obtain ⟨r, hr1, hr2⟩ := hi.covered s h0 (by omega)
+  obtain ⟨_, hlog⟩ := hi.rows_log r hr1
+  exact ⟨r, hr1, hr2, by rw [← hl, ← hr2]; exact hlog⟩
 
 /-- The recovered family rejects every sequence at or below the recovered (persisted) one. -/
 theorem recovered_rejects_persisted (cfg : Cfg) (st : St) (hd : st.phase = .down)
@@ -112,6 +139,17 @@ example : Disciplined ⟨false⟩ St.init goodTrace := by decide
 example : (run ⟨false⟩ St.init goodTrace).groupAck = 3 ∧ (run ⟨false⟩ St.init goodTrace).stored = some 3 ∧
     (fileRows (run ⟨false⟩ St.init goodTrace)).length = 4 ∧ (run ⟨false⟩ St.init goodTrace).gcLow = 2 := by decide
 example : Resolves (run ⟨false⟩ St.init goodTrace) := resolves_partial _ _ (by decide)
+
+/-- non-vacuity of `replay_complete`: a crash with two unapplied / unflushed entries; two rounds of
+the replica loop bring both back -/
+def lossyTrace : List Ev :=
+  [.append 0 0, .applyBegin, .applyWrite, .applyCommit] ++ flushRound ++
+  [.append 1 1, .applyBegin, .applyWrite, .applyCommit, .append 2 2, .crash, .recover, .rewind]
+
+example : (run ⟨false⟩ St.init lossyTrace).phase = .running ∧ (run ⟨false⟩ St.init lossyTrace).inflight = none ∧
+    (run ⟨false⟩ St.init lossyTrace).appended - (run ⟨false⟩ St.init lossyTrace).consumed ≤ 2 ∧
+    (run ⟨false⟩ St.init lossyTrace).memMut = [] ∧
+    (run ⟨false⟩ St.init (lossyTrace ++ rounds 2)).memMut = [⟨2, 2, 2⟩, ⟨1, 1, 1⟩] := by decide
 
 /-! ### generated facts: the model's event order is the code's call order -/
 
